@@ -21,7 +21,13 @@ def labelled_programs(rng, n_per=1):
     """vocabulary x resolving opcode x call-making opcode x disposal x framing x surrounding data"""
     out = []
     disposals = ["result", "pop", "popmark", "dup", "memo", "stranded", "build", "arg", "inlist", "setitem"]
-    for m, a, label in progs.VOCAB:
+    # every documented dangerous module and a submodule of each, on top of the shared vocabulary
+    vocab = list(progs.VOCAB)
+    for d in DANGEROUS:
+        for m in (d, d + ".sub"):
+            if not any(v[0] == m for v in vocab):
+                vocab.append((m, "f", "dangerous"))
+    for m, a, label in vocab:
         for resolve in ("GLOBAL", "STACK_GLOBAL", "INST"):
             for call in ("none", "REDUCE", "OBJ", "NEWOBJ", "NEWOBJ_EX", "INSTCALL"):
                 if resolve == "INST" and call not in ("none", "INSTCALL"):
@@ -58,6 +64,14 @@ def labelled_programs(rng, n_per=1):
                         prog += res + [arg, "TUPLE1", "NEWOBJ"]
                     elif call == "NEWOBJ_EX":
                         prog += res + [arg, "TUPLE1", "EMPTY_DICT", "NEWOBJ_EX"]
+                    # computed callee: the value just made is itself called (result of a call as callee)
+                    chain = rng.choice([None, None, None, "REDUCE", "NEWOBJ", "OBJ"]) if call != "none" else None
+                    if chain == "REDUCE":
+                        prog += ["MARK", arg, "TUPLE", "REDUCE"]
+                    elif chain == "NEWOBJ":
+                        prog += [arg, "TUPLE1", "NEWOBJ"]
+                    elif chain == "OBJ":
+                        prog += [("BINPUT", 5), "POP", "MARK", ("BINGET", 5), arg, "OBJ"]
                     # the value is now on top; dispose of it
                     if disp == "result":
                         pass
@@ -84,18 +98,37 @@ def labelled_programs(rng, n_per=1):
                     if rng.random() < 0.4:      # benign data after (below the result)
                         prog += [("BINPUT", 77), "POP", ("SHORT_BINUNICODE", "tail"), "POP", ("BINGET", 77)]
                     prog.append("STOP")
-                    out.append((f"{label}/{resolve}/{call}/{disp}", asm.assemble(prog)))
+                    kind = f"{label}/{resolve}/{call}{'+' + chain if chain else ''}/{disp}"
+                    out.append((kind, asm.assemble(prog)))
+                    if call != "none" and rng.random() < (0.3 if label == "bad_call" else 0.04):
+                        # known finding D20: a stdlib attribute of the callee's printed name is also resolved
+                        shadow = [("GLOBAL", ("collections", a)), "POP"]
+                        if chain:
+                            shadow += [("GLOBAL", ("collections", "_var0")), "POP"]
+                        body = prog[:-1] + ["POP"] + shadow + ["NONE", "STOP"]
+                        out.append(("shadow:" + kind, asm.assemble(body)))
     return out
 
 
 def floor_of(data):
-    """ground truth from the reference VM's event log: (floor rank, reason, alias_flag) or None"""
+    """Ground truth from the reference VM's event log, exactly the property's four clauses:
+       resolve of a global from a module outside the standard library           -> >= LIKELY_UNSAFE (3)
+       resolve from a documented dangerous module or a submodule of one         -> >= LIKELY_OVERTLY_MALICIOUS (4)
+       call of builtins eval / exec / compile / open                            -> OVERTLY_MALICIOUS (5)
+       call of any other builtin, a non-stdlib global, or a computed callee     -> >= LIKELY_UNSAFE (3)
+    (a call of a benign-stdlib global adds nothing).  Returns (floor, reason, attribution) where attribution
+    gives the floor with the calls affected by a known finding discounted:
+       wo_alias  -- bad-four calls reached through a variable fickling introduced (D18) count 3 instead of 5
+       wo_shadow -- calls whose printed callee name is also resolved from a stdlib module (D20) count 0
+    or None when the VM rejects the program."""
     tr, val, w, ok = vmlib.vm_trace(data)
     if not ok:
         return None
-    floor, reason = 0, None
+    std_names = {ev[2] for ev in w.events
+                 if ev[0] == "resolve" and ev[1] not in vmlib.BUILTINS_MODULES and is_stdlib(ev[1])}
+    var_shadow = any(vmlib._VAR.match(n) for n in std_names)
+    contrib = []            # (floor, reason, alias, shadow)
     stated = set()          # stand-ins that had state / items applied (fickling names them by a variable)
-    alias = False
     for ev in w.events:
         if ev[0] == "resolve":
             m = ev[1]
@@ -105,27 +138,35 @@ def floor_of(data):
             parts = m.split(".")
             if any(".".join(parts[:i]) in DANGEROUS for i in range(1, len(parts) + 1)):
                 f = 4
-            if f > floor:
-                floor, reason = f, f"resolve {m}.{ev[2]}"
+            contrib.append((f, f"resolve {m}.{ev[2]}", False, False))
         elif ev[0] in ("setstate", "setitem"):
             if isinstance(ev[1], vmlib.Stub) and ev[1]._kind == "g":
                 stated.add(id(ev[1]))
         elif ev[0] == "call":
             callee = ev[1]
-            f = 0
+            f, alias, shadow = 0, False, False
             if isinstance(callee, vmlib.Stub) and callee._kind == "g":
                 m, a = callee._id
+                named_by_var = id(callee) in stated
                 if m in vmlib.BUILTINS_MODULES:
                     f = 5 if a in BAD else 3
-                    if id(callee) in stated and a in BAD:
-                        alias = True
+                    alias = named_by_var and a in BAD
                 elif not is_stdlib(m):
                     f = 3
+                # BadCalls looks at the text only, so a shadowed bad-four call is still caught unless aliased
+                shadow = (var_shadow if named_by_var else a in std_names) and not (a in BAD and not named_by_var)
             else:
                 f = 3           # computed callee
-            if f > floor:
-                floor, reason = f, f"call {vmlib.Canon().val(callee)}"
-    return floor, reason, alias
+                shadow = var_shadow
+            contrib.append((f, f"call {vmlib.Canon().val(callee)}", alias, shadow))
+    floor, reason = 0, None
+    for f, why, _, _ in contrib:
+        if f > floor:
+            floor, reason = f, why
+    wo_alias = max([min(f, 3) if al else f for f, _, al, _ in contrib] + [0])
+    wo_shadow = max([0 if sh else f for f, _, _, sh in contrib] + [0])
+    wo_both = max([0 if sh else (min(f, 3) if al else f) for f, _, al, sh in contrib] + [0])
+    return floor, reason, {"wo_alias": wo_alias, "wo_shadow": wo_shadow, "wo_both": wo_both}
 
 
 def oracle(data):
@@ -134,7 +175,7 @@ def oracle(data):
     fl = floor_of(data)
     if fl is None or fl[0] == 0:
         return None
-    floor, reason, alias = fl
+    floor, reason, attr = fl
     try:
         p = Pickled.load(data)
         p.ast
@@ -146,8 +187,16 @@ def oracle(data):
         return None
     except Exception as e:
         return {"what": f"analysis raised {type(e).__name__}: {e}", "floor": DOC[floor], "because": reason}
-    if DOC.index(sev) < floor:
-        return {"what": f"verdict {sev} is below the floor {DOC[floor]}", "because": reason, "alias": alias,
+    got = DOC.index(sev)
+    if got < floor:
+        known = None
+        if got >= attr["wo_alias"]:
+            known = ["alias-escape"]
+        elif got >= attr["wo_shadow"]:
+            known = ["stdlib-name-shadow"]
+        elif got >= attr["wo_both"]:
+            known = ["alias-escape", "stdlib-name-shadow"]
+        return {"what": f"verdict {sev} is below the floor {DOC[floor]}", "because": reason, "known": known,
                 "floor": DOC[floor], "verdict": sev}
     return None
 
@@ -204,7 +253,7 @@ def correspond(chk, corpus, results):
 
 def build_corpus(chk, tier):
     rng = chk.rng
-    corpus = labelled_programs(rng, 1 if tier == "quick" else 3)
+    corpus = labelled_programs(rng, 2 if tier == "quick" else 3)
     n = (1500, 700) if tier == "quick" else (40000, 15000)
     for _ in range(n[0]):
         corpus.append(("random", asm.assemble(progs.random_typed(rng))))
@@ -219,11 +268,14 @@ def main(tier, seed):
     chk = Check("C04", tier, seed)
     chk.rule = ("labelled vocabulary (25 globals: bad-call builtins / other builtins / documented dangerous stdlib / "
                 "benign stdlib / non-stdlib) x resolving opcode (GLOBAL, STACK_GLOBAL, INST) x call-making opcode "
-                "(REDUCE, OBJ, NEWOBJ, NEWOBJ_EX, INST) x 10 disposals of the value x PROTO framing x benign data "
-                "before/after; plus random typed programs, natural pickles, bounded-exhaustive programs. "
+                "(REDUCE, OBJ, NEWOBJ, NEWOBJ_EX, INST), optionally followed by a call of the result (computed callee, by "
+                "REDUCE / NEWOBJ / OBJ) x 10 disposals of the value (result, POP, POP_MARK, DUP, memo-only, stranded, "
+                "BUILD-ed, passed as argument, in a list, SETITEM-ed) x PROTO framing x benign data before/after; a few "
+                "with the callee's printed name also resolved from a stdlib module (known finding D20); plus random "
+                "typed programs, natural pickles, bounded-exhaustive programs. "
                 "(a) analysis model vs check_safety (verdict and every finding); (b) ground-truth floor from the "
                 "reference VM's event log vs the real verdict. non-trivial = floor > LIKELY_SAFE")
-    built = chk.regen_and_build(["proofs/FloorProofs.vo"])
+    built = chk.regen_and_build(["proofs/FloorProofs.vo", "proofs/OtherCallProofs.vo"])
     if built:
         chk.prove()
     corpus = build_corpus(chk, tier)
@@ -247,14 +299,15 @@ def main(tier, seed):
         if data not in seen:
             seen.add(data)
             fl = None
-            if why is None and kind.count("/") == 3:
+            if kind.count("/") == 3:
                 chk.nontriv(data.hex())
         if not why:
             continue
-        sig = "alias-escape" if why.get("alias") else None
-        known = chk.match_known(sig) if sig else None
-        if known:
-            chk.known_finding(known)
+        ks = [chk.match_known(sig) for sig in (why.get("known") or [])]
+        if ks and all(ks):
+            for k in ks:
+                chk.known_finding(k)
+            chk.stats["known-finding cases"] = chk.stats.get("known-finding cases", 0) + 1
         else:
             new_fail.append({"kind": kind, "hex": data.hex(), **why})
     new_fail.sort(key=lambda f: len(f["hex"]))
@@ -268,7 +321,7 @@ def main(tier, seed):
             return {"oracle": f["what"], **f}
         for m in mism:
             why = oracle(bytes.fromhex(m["hex"]))
-            if why and not why.get("alias"):
+            if why and not why.get("known"):
                 return {"hex": m["hex"], "oracle": why["what"], **why}
         return None
 
@@ -283,6 +336,9 @@ def replay(path):
         print("replay: no concrete input recorded; re-running the quick check")
         return main("quick", doc.get("seed", 0))
     why = oracle(bytes.fromhex(case["hex"]))
+    if why and why.get("known"):
+        print("replay: the recorded case fails only through known findings " + ", ".join(why["known"]))
+        return 0
     if why:
         print(f"VIOLATION property=C04 replay={path}")
         print(json.dumps(why))
